@@ -47,6 +47,25 @@ def gen_model_lines(rng, tier, schemas):
                     pieces.append(nm + rng.choice(['', '', '=1', '="q"', '=', '==2']))
                 sp = (c18gen.ws_run(rng) + sep + c18gen.ws_run(rng)).join(pieces)
             lines.append('fvm %s %s' % (cname, sp.encode().hex() or '-'))
+    # Set-Cookie: the name-value pair in every spelling (white space around name and value, runs of ";"), in front of attribute
+    # lists spelled by the family generator, of nothing, and of text the attribute-list parser refuses
+    for _ in range(n):
+        r = c18gen.cookie_cases(rng)
+        rests = ['']
+        if r is not None:
+            rests += [t.split(';', 1)[1] if ';' in t else '' for _, t in r[2][:3]]
+        rests += [' Secure', 'Secure;', ' x', 'Max-Age=x', ' =', '  ']
+        name = rng.choice(['sid', 'SID', 'a', '__Host-id', 'a b', '', 'n;m', '"q"'])
+        value = rng.choice(['abc', '31d4d96e407aad42', '', 'a b', 'a=b', '"quoted"', 'x\ty', '='])
+        ws = lambda: rng.choice(['', '', ' ', '\t', ' \t', '  '])
+        k = rng.random()
+        if k < 0.1:
+            text = ws() + name + ws() + value          # no "="
+        else:
+            text = ws() + name + ws() + '=' + ws() + value + ws()
+            if k < 0.8:
+                text += ';' * rng.choice([1, 1, 1, 2, 3]) + rng.choice(rests)
+        lines.append('cookiepair %s' % (text.encode().hex() or '-'))
     # Strict-Transport-Security end to end (value classes included): spellings of values, and malformed ones
     sts = [f for f in c18gen.families() if f.name == 'HSTS'][0]
     for _ in range(n):
@@ -223,6 +242,12 @@ def run(chk):
         model_out = common.run_model(lines)
         for l, m in zip(lines, model_out):
             i = impl.impl_line(l)
+            if l.startswith('cookiepair ') and m.startswith('OK '):
+                # the model hands the remainder to the attribute-list parser, which is the implementation's own here: what it
+                # makes of the remainder (its composed form, or its refusal) is what the whole parse must give
+                mw = m.split(' ')
+                rest = impl.impl_line('cookieparams ' + mw[3])
+                m = ' '.join(mw[:3] + [rest[3:]]) if rest.startswith('OK ') else rest
             if m != i and nv < 5:
                 nv += 1
                 ws = l.split(' ')
